@@ -2,7 +2,7 @@
 from __future__ import annotations
 
 from fv import canon, core, geometry, harness
-from fv.corpus import CORPUS, SIZED
+from fv.corpus import CORPUS, SIZED, LAYOUT
 from checks.c19 import DEVIATIONS
 
 POLES = [None, "small", "medium", "big", "substation"]
@@ -43,6 +43,7 @@ class C08(core.Check):
     def cases(self, tier):
         out = []
         progs = dict(CORPUS)
+        progs.update(LAYOUT)
         progs.update(SIZED)
         for p in progs:
             if tier == "quick" and p == "combs-60":
@@ -57,6 +58,7 @@ class C08(core.Check):
 
     def run_case(self, case):
         progs = dict(CORPUS)
+        progs.update(LAYOUT)
         progs.update(SIZED)
         src = progs[case["program"]]
         kw = dict(poles=case["poles"], optimize=case["optimize"])
